@@ -50,6 +50,11 @@ RULES = [
     "the arm's pattern bindings and free variables (given by the template); an unused `_` loop pattern inside may be given a name so invariants can mention it",
     "R11 in an extracted function the sub-pattern `ZValue::Thunk(_)` may be weakened to `_`: continuation arguments are then not required to be "
     "thunks (the function only clones and forces them); positions, order, arity and everything else stay the repository's",
+    "R12 a `for PAT in EXPR { BODY }` loop whose EXPR is itself an iterator may be written as Rust defines it: `let mut it = EXPR; loop { match it.next() "
+    "{ Some(PAT) => { BODY } None => break } }` (Verus has no specification for std's string iterators in `for`); refused if the loop contains a labelled "
+    "break/continue; if EXPR is not an iterator the unit does not compile (exit 2)",
+    "R13 the leading guard of a function body (`if <cond> { .. return .. }`, preceded by nothing but logging-macro statements) may be extracted alone and "
+    "verified under the precondition that makes it return; the rest of that body is then NOT verified and is unreachable under the precondition",
     "R6 a trait-impl method may be emitted inside an inherent impl (Verus forbids requires on trait impls); its text is unchanged",
     "R7 `Self::` / `Self` may be replaced by the concrete type name when a method is lifted out of its impl (option self_ty)",
 ]
@@ -230,12 +235,47 @@ def _fn_parts(f, istart, hend, iend):
     return head, ret, where, body
 
 
-def _apply_loops(body, loops_spec, break_to_return, proofs, ex, label, ret_type=None):
+def _apply_loops(body, loops_spec, break_to_return, proofs, ex, label, ret_type=None, desugar_for=None):
     """body is `{ ... }` text. Returns rewritten body."""
     inserts = []  # (pos, text)
     m = rsscan.mask(body)
     loops = rsscan.find_loops(m, 0, len(m))
+    desugar_for = desugar_for or {}
+    for k, itname in desugar_for.items():
+        # R12: `for PAT in EXPR { BODY }` -> `{ let mut it = EXPR; loop <clauses> { match it.next() { Some(PAT) => { BODY } None => break, } } }`
+        if k >= len(loops) or loops[k][0] != 'for':
+            raise ExtractError(f'{label}: desugar_for {k}: no such `for` loop -- lost anchor')
+        kw, kwpos, bopen, bclose = loops[k]
+        hdr_m = m[kwpos:bopen]
+        hdr = body[kwpos:bopen]
+        # split `for PAT in EXPR` at the first ` in ` at bracket depth 0
+        depth = 0
+        cut = None
+        i = 3
+        while i < len(hdr_m):
+            ch = hdr_m[i]
+            if ch in '([{':
+                depth += 1
+            elif ch in ')]}':
+                depth -= 1
+            elif depth == 0 and re.match(r'\sin\s', hdr_m[i:i + 4]):
+                cut = i
+                break
+            i += 1
+        if cut is None:
+            raise ExtractError(f'{label}: desugar_for {k}: cannot split the loop header')
+        pat = hdr[3:cut].strip()
+        expr = hdr[cut + 4:].strip()
+        inner_m = m[bopen + 1:bclose]
+        if re.search(r"\b(break|continue)\s+'", inner_m):
+            raise ExtractError(f'{label}: desugar_for {k}: labelled break/continue inside the loop')
+        clauses = loops_spec.get(k, '')
+        inserts.append((('replace', kwpos, bopen + 1), f'{{ let mut {itname} = {expr};\nloop\n{clauses.rstrip()}\n{{ match {itname}.next() {{ Some({pat}) => {{'))
+        inserts.append((('replace', bclose, bclose + 1), '} None => break, } } }'))
+        ex.rewrites.append(f'{label}: `for {pat} in {expr}` desugared to `let mut {itname} = {expr}; loop {{ match {itname}.next() {{ Some({pat}) => .., None => break }} }}` (R12)')
     for k, clauses in loops_spec.items():
+        if k in desugar_for:
+            continue
         if k >= len(loops):
             raise ExtractError(f'{label}: loop #{k} not found (function has {len(loops)} loops) -- lost anchor')
         kw, kwpos, bopen, bclose = loops[k]
@@ -363,6 +403,11 @@ def extract_fn(repo, header, contract, ex, body_only=False):
             opts.setdefault('assoc', []).append(m.group(1))
             cur = None
             continue
+        m = re.match(r'^desugar_for\s+(\d+)\s+(\w+)$', l)
+        if m:
+            opts.setdefault('desugar_for', {})[int(m.group(1))] = m.group(2)
+            cur = None
+            continue
         m = re.match(r'^(ret|name|self_ty)\s+(.+)$', l)
         if m:
             opts[m.group(1)] = m.group(2).strip()
@@ -475,7 +520,7 @@ def extract_fn(repo, header, contract, ex, body_only=False):
     post = _post_as_loop_ensures(contract or '', opts['ret'])
     for k in loops_spec:
         loops_spec[k] = loops_spec[k].replace('@post', post)
-    body2 = _apply_loops(body, loops_spec, opts['break_to_return'], opts['proofs'], ex, label, ret_type=ret)
+    body2 = _apply_loops(body, loops_spec, opts['break_to_return'], opts['proofs'], ex, label, ret_type=ret, desugar_for=opts.get('desugar_for'))
     if opts['self_ty']:
         body2 = re.sub(r'\bSelf\b', opts['self_ty'], body2)
     sig = head
@@ -670,7 +715,7 @@ def extract_lalrpop_action(repo, spec, ex):
     return dict(symbols=symbols, action=action.replace('<>', param), fallible=fallible, result_type=ty, param=param)
 
 
-_DIR = re.compile(r'/\*@(type|macro\?|macro|fn|body|expr|action|let|arm)(?![A-Za-z])(.*?)@\*/', re.S)
+_DIR = re.compile(r'/\*@(type|macro\?|macro|fn|body|expr|action|let|arm|prefix)(?![A-Za-z])(.*?)@\*/', re.S)
 
 
 _INC = re.compile(r'/\*@include\s+(\S+)\s*::\s*(\S+)\s*\.\.\s*(\S+)\s*@\*/')
@@ -691,9 +736,64 @@ def _expand_includes(template_text):
     return _INC.sub(sub, template_text)
 
 
+def _expand_registry(repo, template_text):
+    """`$REGISTRY{crate}` -> the source directory of the version of `crate` that /repo/Cargo.lock pins, in the local cargo registry
+    (third-party code the repository runs; nothing is fetched). Lost anchor if the lock file or the directory is missing."""
+    def sub(m):
+        name = m.group(1)
+        lock = os.path.join(repo, 'Cargo.lock')
+        if not os.path.exists(lock):
+            raise ExtractError('lost anchor: Cargo.lock')
+        vm = re.search(r'\[\[package\]\]\s*name = "' + re.escape(name) + r'"\s*version = "([^"]+)"', open(lock).read())
+        if not vm:
+            raise ExtractError(f'lost anchor: {name} is not in Cargo.lock')
+        import glob
+        cands = sorted(glob.glob(os.path.join(os.path.expanduser('~'), '.cargo', 'registry', 'src', '*', f'{name}-{vm.group(1)}')))
+        if not cands:
+            raise ExtractError(f'lost anchor: source of {name} {vm.group(1)} is not in the cargo registry')
+        return cands[0]
+    return re.sub(r'\$REGISTRY\{([\w-]+)\}', sub, template_text)
+
+
+def extract_prefix(repo, header, ex):
+    """`<file> :: ... :: fn f :: through /<regex>/` -> the text of f's body from its opening brace through the end of the first `if` block whose
+    header matches the regex (rule R13). Side condition: nothing but logging-macro statements (`debug!(..);`) precedes that `if`."""
+    lines = [l.strip() for l in header.strip().splitlines()]
+    rel, sels = _parse_path(lines[0])
+    m = re.match(r'through\s+/(.*)/$', sels[-1])
+    if not m:
+        raise ExtractError(f'bad prefix selector {sels[-1]!r}')
+    rx = m.group(1)
+    f = _file(repo, rel)
+    try:
+        kind, name, istart, hend, iend = f.locate(sels[:-1])
+    except ScanError as e:
+        raise ExtractError(f'lost anchor: {rel} :: {" :: ".join(sels[:-1])}: {e}')
+    body = f.src[hend:iend]
+    bm = f.msk[hend:iend]
+    im = re.search(r'\bif\b[^{]*\{', bm)
+    found = None
+    for im in re.finditer(r'\bif\b[^{;]*\{', bm):
+        if re.search(rx, body[im.start():im.end()]):
+            found = im
+            break
+    if found is None:
+        raise ExtractError(f'lost anchor: no `if` matching /{rx}/ in {" :: ".join(sels[:-1])}')
+    before = bm[1:found.start()]
+    rest = re.sub(r'\bdebug!\s*\((?:[^()]|\([^()]*\))*\)\s*;', '', before)
+    if rest.strip():
+        raise ExtractError(f'{rel}::{"::".join(sels)}: R13 side condition failed: statements other than logging precede the guard: {rest.strip()[:60]!r}')
+    close = rsscan.match_close(bm, found.end() - 1)
+    text = body[1:close + 1]
+    ex.items.append(dict(kind='fn-prefix', source=rel, selector=' :: '.join(sels), sha=_sha(text), name=f'{name}_guard', loc=text.count('\n') + 1))
+    ex.rewrites.append(f'{rel}::{"::".join(sels)}: only the leading guard of the function body is extracted (R13); the rest of the body is not verified')
+    return f'/*@@BODY {name}_guard*/' + text + '/*@@END*/'
+
+
 def build_unit(repo, template_text):
     """Returns (unit_text, Extracted)."""
     template_text = _expand_includes(template_text)
+    template_text = _expand_registry(repo, template_text)
     ex = Extracted()
     out = []
     pos = 0
@@ -722,6 +822,8 @@ def build_unit(repo, template_text):
             out.append(extract_let(repo, arg.strip(), ex))
         elif kind == 'arm':
             out.append(extract_arm(repo, arg, ex))
+        elif kind == 'prefix':
+            out.append(extract_prefix(repo, arg, ex))
         elif kind == 'expr':
             d = extract_lalrpop_action(repo, arg.strip(), ex)
             out.append(d['action'])
